@@ -76,7 +76,8 @@ def _keepfirst(d, v):
 
 
 INITS = {'int': int, 'float': float, 'half': _half, 'five': _five, 'str': str, 'list': list, 'tuple': tuple,
-         'dict': dict, 'odict': OrderedDict, 'seeded': _seeded, 'strx': _strx, 'tup0': _tup0, 'dec': Decimal}
+         'dict': dict, 'odict': OrderedDict, 'seeded': _seeded, 'strx': _strx, 'tup0': _tup0, 'dec': Decimal,
+         'shlist': None}                # lambda: SHARED, one list object per spec object (see RealReduction)
 OPS = {'iadd': operator.iadd, 'add': operator.add, 'digits': _digits, 'right': _right,
        'update': None, 'keepfirst': _keepfirst, 'extend': 'extend', 'count': None}
 
@@ -88,12 +89,16 @@ class RealReduction:
         self.sp = sp
         self.counter = None
         init = sp['init']
+        factory = INITS.get(init)
+        if init == 'shlist':
+            shared = []
+            factory = lambda: shared         # noqa: E731 - the same object at every call
         if init == 'lazy':
             self.init = 'lazy'
         elif counting and sp['form'] != 'Count':
-            self.counter = self.init = Counting(INITS[init])
+            self.counter = self.init = Counting(factory)
         else:
-            self.init = INITS[init]
+            self.init = factory
         sub = {'T': T, 'k': 'k', 'klist': ('k', [T])}[sp['sub']]
         form, op = sp['form'], OPS[sp['op']]
         self.spec = None
@@ -173,15 +178,37 @@ def mutables(o, acc=None, seen=None):
     return acc
 
 
-def run_case(heap0, root, wrap, sp, counting):
-    """Evaluate the real spec object twice; -> (obs list, frame ok, independent ok, detail)"""
-    heap = codec.Heap(heap0)
+def _caller_changes(res, input_ids):
+    """the caller may do what it likes with a result it got: change it (if it is a new mutable object)"""
+    if id(res) in input_ids:
+        return
+    if isinstance(res, list):
+        res.append('changed by the caller')
+    elif isinstance(res, dict):
+        res['changed by the caller'] = 0
+
+
+def run_case(heap0, root, wrap, sp, counting, third=False):
+    """Evaluate the real spec object twice (the caller changes the first result in between; with
+    third=True a third time, on an equal but different target); the counting variant builds the input
+    from falsy list / tuple / dict / object subclasses that override __getitem__.
+    -> (obs list, frame ok, independent ok, detail)"""
+    classes = codec.FALSY_LOGGING if counting else codec.PLAIN
+    del codec.ACCESS_LOG[:]
+    heap = codec.Heap(heap0, classes)
     rr = RealReduction(sp, counting)
     rootobj = heap.val(root)
     input_ids = set(heap.ids)
-    obs, results = [], []
+    shared = sp['init'] == 'shlist'
+    obs, results, after = [], [], []
     frame, indep, detail = True, True, ''
-    for e in (1, 2):
+    for e in (1, 2, 3):
+        if e == 3:
+            if not third or shared:
+                break
+            heap = codec.Heap(heap0, classes)       # an equal, different target
+            rootobj = heap.val(root)
+            input_ids |= set(heap.ids)
         target = iter(rootobj) if wrap == 'gen' else rootobj
         o = {'ok': True, 'v': {'k': 'none'}, 'exc': '', 'inits': -1}
         res = None
@@ -207,19 +234,23 @@ def run_case(heap0, root, wrap, sp, counting):
         if heap.snapshot() != heap0:
             frame = False
             detail = detail or 'input changed during evaluation %d' % e
-    if obs[0]['ok'] and obs[1]['ok']:
+        if o['ok'] and not shared and not (sp['form'] == 'flatten' and sp['levels'] == 0):
+            _caller_changes(res, input_ids)
+        after.append(deep(res) if o['ok'] else None)
+    del codec.ACCESS_LOG[:]
+    if obs[0]['ok'] and obs[1]['ok'] and not shared:
         if (mutables(results[0]) - input_ids) & (mutables(results[1]) - input_ids):
             indep = False
             detail = detail or 'the two results share a fresh mutable object'
-        if deep(results[0]) != obs[0]['v']:
+        if deep(results[0]) != after[0]:
             indep = False
-            detail = detail or 'the first result changed during the second evaluation'
+            detail = detail or 'the first result changed during a later evaluation'
     return obs, frame, indep, detail
 
 
 def compare(pred, obs, counting):
-    for e in (0, 1):
-        p, o = pred[e], obs[e]
+    for e in range(len(obs)):
+        p, o = pred[min(e, 1) if e < 2 else 0], obs[e]    # a third evaluation is a first one on another target
         if p['ok'] != o['ok'] or p['exc'] != o['exc']:
             return 'evaluation %d: predicted %s observed %s' % (
                 e + 1, 'ok' if p['ok'] else p['exc'], 'ok' if o['ok'] else o['exc'])
@@ -242,8 +273,8 @@ def worker(states):
             out['nontrivial'] += 1
         ok = True
         for counting in (False, True):
-            obs, frame, indep, detail = run_case(heap0, st['root'], st['wrap'], sp, counting)
-            out['calls'] += 2
+            obs, frame, indep, detail = run_case(heap0, st['root'], st['wrap'], sp, counting, third=not counting)
+            out['calls'] += len(obs)
             why = compare(st['pred'], obs, counting)
             if why is None and not frame:
                 why = 'input mutated: ' + detail
@@ -257,7 +288,7 @@ def worker(states):
                                        case=dict(heap0=heap0, root=st['root'], wrap=st['wrap'], sp=sp,
                                                  pred=st['pred'], obs=obs, counting=counting)))
             else:
-                out['agree'] += 2
+                out['agree'] += len(obs)
         if ok and len(out['samples']) < 1 and nelem >= 2 and sp['form'] in ('Fold', 'flatten', 'Merge'):
             out['samples'].append(dict(heap0=heap0, root=st['root'], wrap=st['wrap'], sp=sp, pred=st['pred']))
     return out
@@ -273,6 +304,8 @@ def rand_elem(rng, cells, depth, flavour):
     if flavour == 'nums' or (depth >= 3) or r < 0.15:
         c = rng.random()
         if c < 0.6 or flavour == 'nums':
+            if rng.random() < 0.08:
+                return {'k': 'bool', 'b': False}
             return {'k': 'int', 'i': rng.randint(0, 6)} if rng.random() < 0.7 else \
                 {'k': 'frac', 'n': rng.choice([1, 3, 5]), 'd': 2}
         if c < 0.85:
@@ -302,6 +335,18 @@ def rand_elem(rng, cells, depth, flavour):
     return {'k': 'ref', 'a': len(cells)}
 
 
+def shared_ok(cells, root, sub):
+    """a shared init object is exercised where the fold cannot fail half-way (mirrors MC_C15!SharedOk)"""
+    if sub != 'T' or root['k'] != 'ref':
+        return False
+    c = cells[root['a'] - 1]
+    if c['cls'] not in ('list', 'tuple', 'dict', 'odict'):
+        return False
+    elems = [it[0] for it in c['items']] if c['cls'] in ('dict', 'odict') else c['items']
+    return all(e['k'] == 'str' or (e['k'] == 'ref' and cells[e['a'] - 1]['cls'] in ('list', 'tuple', 'dict', 'odict'))
+               for e in elems)
+
+
 def rand_row(rng):
     cells = []
     flavour = rng.choice(['nums', 'seqs', 'seqs', 'dicts', 'mixed'])
@@ -318,7 +363,7 @@ def rand_row(rng):
         root = rng.choice([{'k': 'int', 'i': 5}, {'k': 'none'}, {'k': 'str', 's': 'uv'}])
     else:
         hashable = all(e['k'] != 'ref' for e in elems) and len({json.dumps(e) for e in elems}) == len(elems) \
-            and not any(e['k'] == 'frac' for e in elems)
+            and not any(e['k'] in ('frac', 'bool') for e in elems)
         if hashable and r < 0.2:
             cells.append({'cls': 'dict', 'items': [[e, {'k': 'none'}] for e in elems]})
         else:
@@ -335,7 +380,11 @@ def rand_row(rng):
     sp = dict(form=form, sub=sub, init='int', op='iadd', levels=1, lazy=False)
     if form == 'Fold':
         sp['init'] = rng.choice(list(INITS))
+        if sp['init'] == 'shlist' and not shared_ok(cells, root, sub):
+            sp['init'] = 'list'
         sp['op'] = rng.choice(['iadd', 'iadd', 'add', 'right'] + (['digits'] if sp['init'] in ('int', 'float', 'half', 'five', 'dec') else []))
+        if sp['init'] == 'shlist':
+            sp['op'] = 'iadd'            # the shared list is extended in place
     elif form == 'Sum':
         sp['init'] = rng.choice(['int', 'float', 'half', 'five', 'strx', 'dec'])
     elif form == 'Flatten':
@@ -412,8 +461,9 @@ def consts(**kw):
 
 UNIVERSES = {
     'quick': [
-        ('all', consts(MaxLen=2, Outers=tla_set(['list', 'gen', 'dict']))),
-        ('tuple+subspec', consts(MaxLen=1, Outers=tla_set(['tuple', 'list']), Subs=tla_set(['k', 'klist']),
+        ('all', consts(MaxLen=2, Outers=tla_set(['list', 'dict']))),
+        ('generators', consts(MaxLen=2, Outers=tla_set(['gen']), Families=tla_set(['seqs', 'bad']))),
+        ('tuple+subspec', consts(MaxLen=1, Outers=tla_set(['tuple']), Subs=tla_set(['k', 'klist']),
                                  Families=tla_set(['nums', 'seqs', 'dicts', 'bad']))),
     ],
     'thorough': [
@@ -425,6 +475,8 @@ UNIVERSES = {
 }
 MUT_UNIVERSE = consts(MaxLen=2, Families=tla_set(['seqs', 'dicts', 'deep']), Outers=tla_set(['list']),
                       Forms=tla_set(['Fold', 'Flatten', 'Merge', 'flatten', 'Count']), Levels='{1, 2}')
+MUT_KEYS_UNIVERSE = consts(MaxLen=2, Families=tla_set(['dicts']), Outers=tla_set(['list']), Forms=tla_set(['Merge']),
+                           Levels='{1}')
 # spec mutant -> (cfg whose invariants must be violated, the law expected to fail first)
 MUTANTS = [('init_once', 'MC_C15_mut_indep', 'InvIndependent'),
            ('first_as_init', 'MC_C15_mut_frame', None),
@@ -432,6 +484,8 @@ MUTANTS = [('init_once', 'MC_C15_mut_indep', 'InvIndependent'),
            ('lazy_extra_level', 'MC_C15_mut_lazy', 'InvLazyEager'),
            ('init_once', 'MC_C15', None),
            ('count_bad_init', 'MC_C15', None),
+           ('shared_copied', 'MC_C15', 'InvValue'),
+           ('idkeys', 'MC_C15', 'InvValue'),
            ('sub_in_try', 'MC_C15', 'InvValue')]
 MUT_SUB_UNIVERSE = consts(MaxLen=1, Families=tla_set(['nums']), Outers=tla_set(['list']), Subs=tla_set(['klist']),
                           Forms=tla_set(['Sum', 'Count']), Levels='{1}')
@@ -445,7 +499,8 @@ def main(tier, seed):
                 for label, cs in UNIVERSES[tier]]
         muts = MUTANTS if tier == 'thorough' else MUTANTS[:2] + MUTANTS[-1:]
         todo += [dict(label='mutant %s' % m, module='MC_C15', cfg=cfg,
-                      constants=dict(MUT_SUB_UNIVERSE if m == 'sub_in_try' else MUT_UNIVERSE, RMutant='"%s"' % m),
+                      constants=dict({'sub_in_try': MUT_SUB_UNIVERSE, 'idkeys': MUT_KEYS_UNIVERSE}.get(m, MUT_UNIVERSE),
+                                     RMutant='"%s"' % m),
                       expect=law, mutant=True, workers=2, heap='2g') for m, cfg, law in muts]
         for job, res, path in jobs.run(todo, parallel=4):
             label = job['label']
@@ -472,7 +527,7 @@ def main(tier, seed):
                 raise vlib.MachineryError('universe %s has no state after the second evaluation' % label)
     finally:
         jobs.close()
-    record(check, {'quick': 6000, 'thorough': 120000}[tier], seed)
+    record(check, {'quick': 5000, 'thorough': 120000}[tier], seed)
     check.extra['universes'] = {label: cs for label, cs in UNIVERSES[tier]}
     check.assumptions += [
         'numbers are ints and exact multiples of 1/2 (float / Fraction); strings are "", "uv" and one-character strings',
